@@ -15,7 +15,9 @@ package main
 // with a provenance marker of a fresh generation and, when the query carried a
 // subnet option, echoes family/source/address with the SCOPE the name's fields
 // ask for (sd<n> source+n, sm<n> source-n, sa<n> absolute, sn no option in the
-// answer, none = scope 0); t<n> = TTL. Every generation is logged with the
+// answer, none = scope 0); t<n> = TTL; nd = a tailored NODATA whose SOA serial
+// is the marker (the resolver relays negative answers with the authority's own
+// OPT, so these DO reach the cache with their scope). Every generation is logged with the
 // subnet the authority saw and the scope it declared, so a client reply tells
 // which upstream exchange its data came from.
 //
@@ -82,6 +84,7 @@ type dseen struct {
 	Req    *ecsVal // subnet the authority saw (nil: none / unreadable)
 	Decl   *ecsVal // scope it declared (nil: none / 0)
 	TTL    uint32
+	Negative bool // a tailored NODATA (marker = SOA serial)
 	Win    int // window (op index) during which it was produced
 	AdvAt  time.Duration
 	q      *dns.Msg
@@ -183,7 +186,7 @@ func (w *dWorld) tailor(q, honest *dns.Msg) *dns.Msg {
 			}
 		}
 	}
-	s := &dseen{Name: strings.ToLower(qu.Name), Qtype: qu.Qtype, TTL: ru.ttl, q: q, Req: subnetVal(sub)}
+	s := &dseen{Name: strings.ToLower(qu.Name), Qtype: qu.Qtype, TTL: ru.ttl, q: q, Req: subnetVal(sub), Negative: isNegativeName(qu.Name)}
 	switch {
 	case dns.IsSubDomain(w.glApex, s.Name):
 		s.Server = "gl"
@@ -226,10 +229,57 @@ func (w *dWorld) tailor(q, honest *dns.Msg) *dns.Msg {
 	e.byQ[q] = s
 	e.seen = append(e.seen, s)
 	e.mu.Unlock()
+	if s.Negative {
+		// a tailored NODATA: the SOA serial is the provenance marker
+		apex := w.geoApex
+		if s.Server == "gl" {
+			apex = w.glApex
+		}
+		m.Ns = []dns.RR{&dns.SOA{Hdr: dns.RR_Header{Name: apex, Rrtype: dns.TypeSOA, Class: dns.ClassINET, Ttl: ru.ttl},
+			Ns: "ns1." + apex, Mbox: dNegMarkerMbox + apex, Serial: s.Gen, Refresh: 3600, Retry: 600, Expire: 86400, Minttl: ru.ttl}}
+		return m
+	}
 	if rr := stack.MarkerRR(s.Gen, qu.Name, qu.Qtype, ru.ttl); rr != nil {
 		m.Answer = []dns.RR{rr}
 	}
 	return m
+}
+
+const dNegMarkerMbox = "c19d-marker."
+
+// isNegativeName: the first label asks for a tailored NODATA ("nd" field).
+func isNegativeName(name string) bool {
+	l := dns.SplitDomainName(strings.ToLower(name))
+	if len(l) == 0 {
+		return false
+	}
+	for _, f := range strings.Split(l[0], "-") {
+		if f == "nd" {
+			return true
+		}
+	}
+	return false
+}
+
+// markersD returns the provenance generations a reply carries: marker
+// records in the answer section, or (negative reply) the marker SOA in the
+// authority section.
+func markersD(m *dns.Msg) (gens []uint32, ttls []uint32, negative bool) {
+	if m == nil {
+		return
+	}
+	gens, ttls = markers(m)
+	if len(gens) > 0 {
+		return
+	}
+	for _, rr := range m.Ns {
+		if soa, ok := rr.(*dns.SOA); ok && strings.HasPrefix(strings.ToLower(soa.Mbox), dNegMarkerMbox) {
+			gens = append(gens, soa.Serial)
+			ttls = append(ttls, soa.Hdr.Ttl)
+			negative = true
+		}
+	}
+	return
 }
 
 // ------------------------------------------------------------------ env
@@ -376,13 +426,44 @@ func (e *denv) serve(op *Op) (out dOut) {
 	return
 }
 
-// settle: nothing runs on behalf of the exchange any more (resolver limiter
-// slots free, prefetch queue empty, no entry holds a refresh claim). A
-// timeout is inconclusive, never a verdict.
+// quiet: no upstream lookup, probe or resolution holds a limiter slot and the
+// prefetch queue is empty, on three consecutive polls. The detached IPv6
+// name-server enrichment jobs are NOT waited for: each sleeps 2 s before it
+// does anything (resolver.lookupV6Nss), carries no client data, and whatever
+// it sends later is judged in the window it falls into.
+func (e *denv) quiet(timeout time.Duration) bool {
+	deadline := time.Now().Add(timeout)
+	stable := 0
+	for {
+		a, b, c, _ := e.rs.Handler.VerifSlots()
+		idle := a+b+c == 0
+		if idle {
+			if ch := e.rs.Cache(); ch != nil && ch.VerifStackPrefetchBacklog() != 0 {
+				idle = false
+			}
+		}
+		if idle {
+			stable++
+			if stable >= 3 {
+				return true
+			}
+		} else {
+			stable = 0
+		}
+		if time.Now().After(deadline) {
+			return false
+		}
+		time.Sleep(300 * time.Microsecond)
+	}
+}
+
+// settle: nothing runs on behalf of the exchange any more (quiet, and no
+// cache entry holds a background-refresh claim). A timeout is inconclusive,
+// never a verdict.
 func (e *denv) settle() bool {
 	deadline := time.Now().Add(20 * time.Second)
 	for {
-		if !e.rs.Quiesce(15 * time.Second) {
+		if !e.quiet(15 * time.Second) {
 			return false
 		}
 		if e.pol.Prefetch == 0 {
@@ -398,7 +479,7 @@ func (e *denv) settle() bool {
 			}
 		}
 		if !claimed {
-			return e.rs.Quiesce(15 * time.Second)
+			return e.quiet(15 * time.Second)
 		}
 		if time.Now().After(deadline) {
 			return false
@@ -481,13 +562,21 @@ func runScenarioD(r *vlib.Run, w *dWorld, sc *dScenario) {
 			e.runPair(i, op)
 		default:
 			from := e.nextWindow(i)
+			t0 := time.Now()
 			out := e.serve(&op.Op)
+			t1 := time.Now()
 			if !e.settle() {
 				r.Inconclusive("part D: pipeline did not quiesce after an exchange")
 				return
 			}
 			r.Count("d_exchanges", 1)
 			pk := w.u.Log.Since(from)
+			if os.Getenv("C19_DEBUG") != "" && time.Since(t0) > 200*time.Millisecond {
+				fmt.Fprintf(os.Stderr, "slow op D/%d/%d %s %s role=%s serve=%v settle=%v\n", sc.Index, i, op.Q.Name, op.Client, op.Role, t1.Sub(t0), time.Since(t1))
+				for _, l := range describePackets(e, pk) {
+					fmt.Fprintln(os.Stderr, "   ", l)
+				}
+			}
 			e.judgeReply(i, &op.Op, &out)
 			e.judgePackets(i, []*Op{&op.Op}, pk)
 			e.judgeAudience(i, &op.Op, &out, pk, nil)
@@ -538,8 +627,17 @@ func (e *denv) runPair(idx int, op *dOp) {
 	// nothing was stored yet, so whatever it receives came from the shared
 	// upstream exchange, not from a cache entry.
 	parked := false
-	if held && e.w.parkMisses < 2 {
-		deadline = time.Now().Add(2 * time.Second)
+	idKey := func(o *Op) string {
+		if v := identitiesOf(e.m, o); len(v) > 0 {
+			return v[0].String()
+		}
+		return "none"
+	}
+	// Clients of one audience (same forwarded subnet, or none) are already
+	// collapsed by the cache's own miss de-duplication and never meet in the
+	// resolver; only clients of different audiences can.
+	if held && idKey(&op.Op) != idKey(op.Second) && e.w.parkMisses < 3 {
+		deadline = time.Now().Add(800 * time.Millisecond)
 		for !finished(doneA) && !finished(doneB) && time.Now().Before(deadline) {
 			if goroutinesIn("TimedDoChanWithRole") >= 2 {
 				parked = true
@@ -549,9 +647,12 @@ func (e *denv) runPair(idx int, op *dOp) {
 		}
 		if !parked {
 			e.w.parkMisses++
+			if os.Getenv("C19_DEBUG") != "" {
+				fmt.Fprintf(os.Stderr, "park miss D/%d/%d doneA=%v doneB=%v waiting=%d n=%d\n", e.sc.Index, idx, finished(doneA), finished(doneB), g.Waiting(), goroutinesIn("TimedDoChanWithRole"))
+			}
 		}
 	} else {
-		time.Sleep(25 * time.Millisecond)
+		time.Sleep(30 * time.Millisecond)
 	}
 	bothInFlight := held && !finished(doneA) && !finished(doneB)
 	parked = parked && bothInFlight
@@ -658,6 +759,8 @@ func genScenarioD(r *vlib.Run, idx int) *dScenario {
 	fields := []string{"sd0-t300", "sd0-t300", "sd8-t3600", "sd1-t300", "sm1-t300", "sm2-t3600", fmt.Sprintf("sa%d-t300", fl), fmt.Sprintf("sa%d-t300", fl+1),
 		fmt.Sprintf("sa%d-t300", max(fl-1, 1)), fmt.Sprintf("sa%d-t3600", max(min(m.c4, fl)-3, 1)), "sn-t300", "t300", "sa0-t300",
 		fmt.Sprintf("sa%d-t300", m.f6), fmt.Sprintf("sa%d-t300", max(min(m.c6, m.f6)-5, 1)), "sd8-t40", "sa1-t300"}
+	fields = append(fields, "sd0-nd-t300", "sd0-nd-t300", fmt.Sprintf("sa%d-nd-t300", fl), "sm1-nd-t300", "sd8-nd-t3600", fmt.Sprintf("sa%d-nd-t300", m.f6),
+		"nd-t300", fmt.Sprintf("sa%d-nd-t300", max(min(m.c4, fl)-3, 1)), "sa1-nd-t300")
 	add := func(id ident, name string, qtype uint16, role string) {
 		op := id.query(rng, name, qtype)
 		op.Role = role
